@@ -12,7 +12,7 @@ import os
 sys.path.insert(0, os.path.dirname(os.path.dirname(os.path.abspath(__file__))))
 from checks.common import *          # noqa: F401,F403
 from checks import xstage as X
-from checks import c01, c02, c06, kconfirm
+from checks import c01, c02, c06, c11, kconfirm
 from engine.mirsym import SliceRef, Ptr, L
 
 
@@ -167,7 +167,7 @@ def main(argv):
     if chk.tier == 'thorough':
         jobs.append(('build_real_score', ('b' * 4, 1, None, 2), chk.seed))
     else:
-        chk.outside.append('panic obligations inside score::* (quick tier): discharged by the C11 check, which executes the scoring functions on all-symbolic modules')
+        chk.outside.append('panic obligations inside score::line (quick tier): discharged by the C11 check for V1-V2; on lines longer than 29 modules they are beyond the solver cap')
     for v in ([0, 1, 2] if chk.tier == 'quick' else [0, 1, 2, 3, 6, 9]) + [rng.choice(range(20, 40))]:
         jobs.append(('place', (v,), chk.seed))
     for (v, l) in [(0, 0), (0, 3), (4, 2), (rng.randrange(10, 40), rng.randrange(4))]:
@@ -177,8 +177,15 @@ def main(argv):
         for n in sorted({0, 1, min(cap, 60), cap} if v < 3 else {1, min(cap, 80)}):
             jobs.append(('encode', (v, l, m, n), chk.seed))
     native_path = chk.ov.native(chk.features)
+    chk.bounds.append('panic/overflow obligations of matrix_score_squares and dark_module_score with every data module symbolic: V40 and V1 (thorough: + V10, V20, V30, V34, V37)')
     jobs.sort(key=lambda j: -(len(j[1][0]) if j[0].startswith('build') and len(j[1][0]) < 3000 else 50))
     chk.jobs(job_panics, jobs, extra={'native': native_path})
+    # scoring functions on the largest symbol (V40) and the smallest, every data module symbolic: panic obligations only
+    sj = [('panics', 39, chk.seed, 'C10/panic'), ('panics', 0, chk.seed, 'C10/panic')]
+    if chk.tier == 'thorough':
+        sj += [('panics', v, chk.seed, 'C10/panic') for v in (9, 19, 29, 33, 36)]
+    chk.jobs(c11.job_score, sj, extra={'native': native_path})
+    jobs = jobs + sj
     chk.cov['runs'] = len(jobs)
     chk.bounds += ['%d symbolic runs of pipeline entry points (QRCode::new cells incl. lengths beyond every capacity, one with the real scoring; place_on_matrix; '
                    'structure+division; encode) - contents symbolic (so all-zero, all-0xFF and pad look-alikes are included), shapes enumerated' % len(jobs),
